@@ -279,7 +279,7 @@ def r4_keyword(cx):
     db = km.func("Keyword._keywords2db", "C08.R4")
     st = [a for a in walk_body(db.body) if isinstance(a, ast.Assign) and U(a.targets[0]).startswith("self._kw_db[")]
     lp2 = enclosing(st[0], ast.For) if st else None
-    ok = bool(st) and lp2 is not None and U(lp2.iter) == "keywords" and not has_exit(lp2.body) and not guard_texts(st[0], stop=lp2)
+    ok = bool(st) and lp2 is not None and U(lp2.iter) in ("keywords", "enumerate(keywords)") and not has_exit(lp2.body) and not guard_texts(st[0], stop=lp2)
     cx.require(ok, st[0] if st else db, "every configured keyword enters the table", construct=short(st[0]) if st else "(none)")
 
 
@@ -304,7 +304,15 @@ def r6_global_substitution(cx):
         lp = floop[0]
         brk = [x for x in walk_body(lp.body) if isinstance(x, (ast.Break, ast.Return))]
         cx.require(not brk, lp, "%s substitutes every match returned by findall (no break/return in the loop)" % q, construct="for %s in %s" % (U(lp.target), short(lp.iter, 80)))
-        calls = [x for x in find_calls(lp.body) if call_name(x) in helpers]
+        # the substitution routine may be called directly or through a local bound to one of the helpers
+        viaq = set()
+        for a in walk_body(fn.body):
+            if isinstance(a, ast.Assign) and isinstance(a.targets[0], ast.Name):
+                hs = set(n.id for n in ast.walk(a.value) if isinstance(n, ast.Name) and n.id in helpers)
+                others = [n for n in ast.walk(a.value) if isinstance(n, ast.Call) and call_name(n) not in ("kwargs.get",)]
+                if hs and not others and isinstance(a.value, (ast.IfExp, ast.Name)):
+                    viaq.add(a.targets[0].id)
+        calls = [x for x in find_calls(lp.body) if call_name(x) in helpers or call_name(x) in viaq]
         ok = bool(calls) and all(isinstance(stmt_of(x), ast.Assign) and U(stmt_of(x).targets[0]) == "line" for x in calls)
         cx.require(ok, calls[0] if calls else lp, "%s: the substituted line is carried to the next match" % q, construct=short(stmt_of(calls[0])) if calls else "(no substitution call)")
     # findall source
@@ -314,12 +322,15 @@ def r6_global_substitution(cx):
     ok = len(ips) == 1 and U(ips[0].value) == "[each[0] for each in re.findall(self.pattern, line)]"
     cx.require(ok, ips[0] if ips else f4, "IPv4 candidates are group 1 of every findall match of self.pattern", construct=short(ips[0]) if ips else "(none)")
     lp = [s for s in walk_body(f4.body) if isinstance(s, ast.For) and "ips" in U(s.iter)]
-    ok = bool(lp) and U(lp[0].iter) in ("sorted(ips or [], key=len, reverse=True)",)
+    ok = bool(lp) and U(lp[0].iter) in ("sorted(ips or [], key=len, reverse=True)", "sorted(ips, key=len, reverse=True)")
     cx.require(ok, lp[0] if lp else f4, "IPv4 matches are substituted longest first (an address that is a prefix of another is not replaced inside it first)",
                construct="for ip in %s" % (U(lp[0].iter) if lp else "?"))
     ig = [x for x in walk_body(f4.body) if isinstance(x, ast.Compare) and "_ignore_list" in U(x)]
-    ok = bool(ig) and U(ig[0]) == "ip not in self._ignore_list"
-    cx.require(ok, ig[0] if ig else f4, "only addresses on the ignore list are left alone", construct=short(ig[0]) if ig else "(none)")
+    subs4 = [x for x in find_calls(lp[0].body) if "_sub_ip" in (call_name(x) or "") or isinstance(stmt_of(x), ast.Assign) and U(stmt_of(x).targets[0]) == "line"] if lp else []
+    g4 = set(guard_texts(subs4[0], stop=lp[0])) if subs4 else set()
+    skip = set((t, p) for t, p in g4 if "width" not in t)
+    ok = bool(ig) and skip == set([("ip in self._ignore_list", False)])
+    cx.require(ok, ig[0] if ig else f4, "only addresses on the ignore list are left alone", construct="substitution guarded by %s" % sorted(skip))
     init = ipm.func("IPv4.__init__", "C08.R6")
     il = [a for a in walk_body(init.body) if isinstance(a, ast.Assign) and U(a.targets[0]) == "self._ignore_list"]
     okl = False
